@@ -78,6 +78,7 @@ finally:
         subprocess.call(["git", "-C", "/repo", "worktree", "remove", "--force", f"{ROOT}/wt{s}"])
     subprocess.call(["find", ROOT, "-depth", "-delete"])
 head = subprocess.check_output(["git", "-C", "/repo", "rev-parse", "--short", "HEAD"]).decode().strip()
-json.dump({"repo_head": head, "results": results}, open("/verif/seeded/RESULTS.json", "w"), indent=1, sort_keys=True)
+out_path = "/verif/seeded/RESULTS.json" if not only else f"/verif/seeded/RESULTS-{only.strip('-')}.json"  # a partial re-run does not replace the full table
+json.dump({"repo_head": head, "only": only, "results": results}, open(out_path, "w"), indent=1, sort_keys=True)
 n_caught = sum(any(v["rc"] == 1 for v in r.get("now", {}).values()) for r in results.values())
 print(f"{len(results)} seeds, {n_caught} caught by a quick check, {sum(not r['applies'] for r in results.values())} do not apply")
